@@ -1,0 +1,23 @@
+//go:build verif
+
+package sdf
+
+// VerifHook, when set, is called at the instrumented linearisation points.
+// It may block (it is used as a scheduler gate by the verification harness).
+var VerifHook func(ev string, a, b int)
+
+func verifEv(ev string, a, b int) {
+	if h := VerifHook; h != nil {
+		h(ev, a, b)
+	}
+}
+
+// Read-only exports of unexported constants for the verification harness.
+const (
+	VerifTBufferSize   = tBufferSize
+	VerifTBufferMargin = tBufferMargin
+	VerifLBufferSize   = lBufferSize
+	VerifLBufferMargin = lBufferMargin
+	VerifQtMaxLevel    = qtMaxLevel
+	VerifEpsilon       = epsilon
+)
